@@ -292,6 +292,7 @@ def run(report, p):
     include_rules(report, p, 'c13', ['R13.2'], 'the directory hashes are evaluated over exactly the non-ignored entries: the ignore match must be made on the path relative to the pattern root at every depth')
     include_rules(report, p, 'c02', ['R2.1'], 'directory hashes are evaluated over exactly the traversed (non-ignored) entries')
     include_rules(report, p, 'c01', ['R1.3', 'R1.4'], "digests are decoded to bytes by the format's own codec")
+    include_rules(report, p, 'c12', ['R12.1'], 'the hashes `verify -dh -co` prints (and create records) are evaluated over exactly the non-ignored entries: the walk uses the effective patterns (latest generation + -i + -ii), not a spec built without them')
     report.not_decided += ["numeric equality with an independent evaluation of the definition on concrete trees", "rename / content-edit relations at run time"]
 
 
